@@ -1,6 +1,6 @@
 """C04 — well-formed in, well-formed out: the anchored mechanisms, decided per unit."""
 from mirsym import models_typst as T
-from . import lists, flows, mathargs, imports
+from . import lists, flows, mathargs, imports, adjacency, deep
 from .common import validate_corpus
 
 EXPLANATION = (
@@ -37,6 +37,11 @@ def run(S):
     validate_corpus(S, 'lists', [l for l, _ in found if l.startswith('C04:')], lambda: lists.native_sweep(S, 'C04', all_hits=True))
     validate_corpus(S, 'mathargs', [l for l, _ in fm if l.startswith('C04:')], lambda: mathargs.native_sweep(S, 'C04'))
     validate_corpus(S, 'imports', [l for l, _ in fi if l.startswith('C04:')], lambda: imports.native_sweep(S, 'C04'))
+    # token adjacency: embedded parenthesised literals, and whole small documents through the real printer
+    fa = adjacency.explore_embedded(S, want=('C04',))
+    adjacency.report(S, 'C04', fa)
+    fd, _ = deep.explore(S, want=('C04',))
+    deep.report(S, 'C04', fd)
     allw = set()
     for o in S.obls:
         allw |= set(o.witnesses)
